@@ -67,6 +67,15 @@ def fn(a=None):
 ''')
   os.makedirs(os.path.join(d, 'c19pkg', 'third'))
   open(os.path.join(d, 'c19pkg', 'third', '__init__.py'), 'w').close()
+  for sub in ('alpha', 'beta'):
+    os.makedirs(os.path.join(d, 'c19pkg', sub), exist_ok=True)
+    open(os.path.join(d, 'c19pkg', sub, '__init__.py'), 'w').close()
+    with open(os.path.join(d, 'c19pkg', sub, 'tools.py'), 'w') as fh:
+      fh.write("def make(size=None):\n  return ('%s.make', size)\n" % sub)
+    os.makedirs(os.path.join(d, 'c19pkg', sub, 'deep'), exist_ok=True)
+    open(os.path.join(d, 'c19pkg', sub, 'deep', '__init__.py'), 'w').close()
+    with open(os.path.join(d, 'c19pkg', sub, 'deep', 'tools.py'), 'w') as fh:
+      fh.write("def make(size=None):\n  return ('%s.deep.make', size)\n" % sub)
   for sub in ('third', 'fourth'):
     os.makedirs(os.path.join(d, 'c19pkg', sub), exist_ok=True)
     open(os.path.join(d, 'c19pkg', sub, '__init__.py'), 'w').close()
@@ -80,6 +89,7 @@ def fn(a=None):
   import c19pkg.other  # pylint: disable=import-outside-toplevel,unused-import
   import c19pkg.third.mod  # pylint: disable=import-outside-toplevel,unused-import
   import c19pkg.fourth.mod  # pylint: disable=import-outside-toplevel,unused-import
+  import c19pkg.alpha.tools, c19pkg.beta.tools, c19pkg.alpha.deep.tools, c19pkg.beta.deep.tools  # pylint: disable=import-outside-toplevel,unused-import,multiple-imports
 
 
 HEAD = 'from __gin__ import dynamic_registration\n'
@@ -348,6 +358,76 @@ MULTI_IMPORTS = {
 }
 
 
+PLAIN_MODS = ['c19pkg.alpha.tools', 'c19pkg.beta.tools', 'c19pkg.alpha.deep.tools', 'c19pkg.beta.deep.tools',
+              'c19pkg.other']
+
+
+def plain_cases():
+  """Several plain `import a.b.c` statements sharing the top-level name in ONE file (module paths that diverge and
+  coincide again), every subset of them actually configured, every import order."""
+  for k in (2, 3):
+    for mods_ in itertools.permutations(PLAIN_MODS, k):
+      for used in range(1, 2 ** k):
+        yield ['plain', list(mods_), used]
+
+
+def run_plain(case, res):
+  _, mods_, used = case
+  desc = list(case)
+  harness.hard_reset()
+  import importlib
+  res.case(tuple(map(repr, case)), True)
+  text = HEAD + ''.join('import %s\n' % m for m in mods_)
+  want = {}
+  for i, m in enumerate(mods_):
+    if used >> i & 1:
+      fn = 'fn.a' if m.endswith('other') else 'make.size'
+      text += "%s.%s = 'v:%s'\n" % (m, fn, m)
+      want[m] = 'v:%s' % m
+  try:
+    gin.parse_config(text)
+  except Exception as e:  # pylint: disable=broad-except
+    res.violation('dynamic_parse_failed', '%r: %r' % (desc, e), desc)
+    return
+
+  def read():
+    out = {}
+    for m in want:
+      o = getattr(importlib.import_module(m), 'fn' if m.endswith('other') else 'make')
+      try:
+        out[m] = gin.get_configurable(o)()[1]
+      except Exception as e:  # pylint: disable=broad-except
+        out[m] = 'raised %s' % type(e).__name__
+    return out
+  if read() != want:
+    res.violation('configured_object', '%r: read back %r, expected %r' % (desc, read(), want), desc)
+    return
+  s1 = gin.config_str()
+  harness.hard_reset()
+  try:
+    gin.parse_config(s1)
+    got2 = read()
+  except Exception as e:  # pylint: disable=broad-except
+    res.violation('config_str_unparseable', '%r: config_str does not re-parse (%r):\n%s' % (desc, e, s1), desc)
+    return
+  others = {}
+  for m in PLAIN_MODS:
+    if m not in want:
+      o = getattr(importlib.import_module(m), 'fn' if m.endswith('other') else 'make')
+      try:
+        r = gin.get_configurable(o)()
+        if r[1] is not None:
+          others[m] = r[1]
+      except Exception:  # pylint: disable=broad-except
+        pass
+  if got2 != want or others:
+    res.violation('config_str_roundtrip_objects', '%r: after re-parsing config_str the objects see %r (others %r), '
+                  'expected %r\n%s' % (desc, got2, others, want, s1), desc)
+    return
+  res.w('config_str_reparses')
+  res.outcome('plain')
+
+
 def multi_cases():
   """3 or 4 modules whose imports bind the same (or a generator-style) name, one file each, chained by includes."""
   for mods_ in (('sub', 'other', 'third'), ('sub', 'third', 'fourth'), ('sub', 'other', 'third', 'fourth')):
@@ -414,6 +494,7 @@ def run_multi(case, res):
 
 def gen(tier):
   yield from multi_cases()
+  yield from plain_cases()
   orders = [['fn'], ['fn', 'Cls', 'Cls.meth', 'Cls.Nested'], ['Cls.meth', 'Cls', 'fn'], ['Cls', 'Cls.meth'],
             ['Cls.Nested', 'fn']]
   if tier != 'quick':
@@ -438,7 +519,7 @@ def run_shard(i, tier):
     if n % NSH != i:
       continue
     try:
-      {'neg': run_negative, 'multi': run_multi}.get(c[0], run_case)(c, res)
+      {'neg': run_negative, 'multi': run_multi, 'plain': run_plain}.get(c[0], run_case)(c, res)
     except Exception:  # pylint: disable=broad-except
       import traceback
       res.extra['harness_error'] = traceback.format_exc() + '\ncase=%r' % (c,)
@@ -451,6 +532,6 @@ def run_shard(i, tier):
 
 def replay(c):
   res = core.Result()
-  {'neg': run_negative, 'multi': run_multi}.get(c[0], run_case)(c, res)
+  {'neg': run_negative, 'multi': run_multi, 'plain': run_plain}.get(c[0], run_case)(c, res)
   harness.hard_reset()
   return res
